@@ -450,19 +450,35 @@ fn round_trip(iface: &RIface, exchange: bool) -> Result<(), (String, String)> {
     let want = iface.by_kind();
     let z = lower(iface);
     let text = z.to_string();
-    let node = if iface.has_commented_variant() { ":custom-enum-with-commented-variant" } else { "" };
-    let parsed = match zparse(&text) {
-        Ok(p) => p,
-        Err(e) => return Err((format!("idlround:rendered-text-not-parseable{node}"), format!("description {want:?} renders as `{}` which does not parse: {e}", simnet::show(text.as_bytes())))),
+    // parse, compare deeply, render again
+    let local = |parse_this: &str| -> Result<(), (String, String)> {
+        let parsed = match zparse(parse_this) {
+            Ok(p) => p,
+            Err(e) => return Err(("idlround:rendered-text-not-parseable".to_string(), format!("description {want:?} renders as `{}` which does not parse: {e}", simnet::show(text.as_bytes())))),
+        };
+        let back = lift(&parsed);
+        if back != want {
+            let class = if back.without_comments() == want.without_comments() { "idlround:comments-lost-or-changed" } else { "idlround:parse-of-render-differs" };
+            return Err((class.to_string(), format!("description {want:?} renders as `{}` and parses back as {back:?}", simnet::show(text.as_bytes()))));
+        }
+        let text2 = parsed.to_string();
+        if text2 != text {
+            return Err(("idlround:second-render-differs".into(), format!("`{}` vs `{}`", simnet::show(text.as_bytes()), simnet::show(text2.as_bytes()))));
+        }
+        Ok(())
     };
-    let back = lift(&parsed);
-    if back != want {
-        let class = if back.without_comments() == want.without_comments() { "idlround:comments-lost-or-changed" } else { "idlround:parse-of-render-differs" };
-        return Err((format!("{class}{node}"), format!("description {want:?} renders as `{}` and parses back as {back:?}", simnet::show(text.as_bytes()))));
-    }
-    let text2 = parsed.to_string();
-    if text2 != text {
-        return Err(("idlround:second-render-differs".into(), format!("`{}` vs `{}`", simnet::show(text.as_bytes()), simnet::show(text2.as_bytes()))));
+    let node = if iface.has_commented_variant() { ":custom-enum-with-commented-variant" } else { "" };
+    if let Err((class, detail)) = local(&text) {
+        if node.is_empty() {
+            return Err((class, detail));
+        }
+        // The listed finding: an enum with a commented variant is rendered without the commas
+        // between its variants.  It covers this description only if putting those commas in is all
+        // it takes; whatever is still wrong then is something else and is reported as such.
+        return match local(&simnet::idlref::add_missing_enum_commas(&text)) {
+            Ok(()) => Err((format!("{class}{node}"), detail)),
+            Err((c2, d2)) => Err((c2, format!("(with the commas the enum rendering lacks put in) {d2}"))),
+        };
     }
     if exchange {
         // service side: the reply to GetInterfaceDescription goes through a real connection ...
@@ -525,10 +541,14 @@ impl Harness for RoundTrip {
                         cx.soft_fail("idlround:parser-output-does-not-round-trip", format!("`{}` -> `{}`", simnet::show(text.as_bytes()), simnet::show(t2.as_bytes())));
                     }
                 }
-                Err(e) => cx.soft_fail(
-                    format!("idlround:rendered-text-not-parseable{}", if iface.has_commented_variant() { ":custom-enum-with-commented-variant" } else { "" }),
-                    format!("parser output for `{}` renders as `{}`: {e}", simnet::show(text.as_bytes()), simnet::show(t2.as_bytes())),
-                ),
+                Err(e) => {
+                    // as above: the listed finding covers it only if the missing commas are all that is wrong
+                    let only_commas = iface.has_commented_variant() && zparse(&simnet::idlref::add_missing_enum_commas(&t2)).map_or(false, |p2| lift(&p2) == lift(&p) && p2.to_string() == t2);
+                    cx.soft_fail(
+                        format!("idlround:rendered-text-not-parseable{}", if only_commas { ":custom-enum-with-commented-variant" } else { "" }),
+                        format!("parser output for `{}` renders as `{}`: {e}", simnet::show(text.as_bytes()), simnet::show(t2.as_bytes())),
+                    )
+                }
             }
         }
         cx.state(xplore::hash_of(&format!("{:?}", iface.without_comments())));
